@@ -264,8 +264,12 @@ def token_probe(rng, s):
 
 class C08(Prop):
     id = "C08"
-    lean_modules = []
-    theorems = []
+    lean_modules = ["PkgProofs.Props.C08"]
+    theorems = ["C08.str_roundtrip", "C08.str_idempotent", "C08.url_xor_spec", "C08.eq_is_pep503_and_spec_eq",
+                "C08.eq_equivalence", "C08.hash_agrees", "C08.extras_as_set",
+                "ReqRound.parse_str", "ReqRound.reparsed_props", "ReqRound.mkSpecSet_specStr", "ReqRound.str_eq_render",
+                "ReqParse.parseSource_render", "ReqParse.versionMany_canon", "ReqParse.parseReqMarker_canon",
+                "ReqLex.checkR_ident", "ReqLex.checkR_url", "ReqLex.matchSpecifier_arb"]
     generated = ["MarkerTok", "ReqTok"]
     rule = ("requirement structures (name, extras, clause list in any spelling incl. white space after the operator, "
             "parenthesised or not, URL, marker) rendered with random optional whitespace at every wsp* position of the "
